@@ -28,7 +28,10 @@ static const char* VALUES[] = {"fn0", "fn1", "var0", "st0", "un0", "^fn.*", ".*"
 			       "{8, end}", "{{0, 8}, {16, end}}", "{{{{", "}", "{a, {b, {c}}}", "yes", "no", "all", "bogus",
 			       "function-subtype-change", "added-function", "deleted-variable", "struct", "enum", "typedef",
 			       "direct", "pointer", "reference-or-pointer", "'0 int", "'1 /^.*$/", "types.h", "lib.so",
-			       "VERS_1", "fn0, fn1, var0", "\"quoted value\"", "a;b", "# not a comment"};
+			       "VERS_1", "fn0, fn1, var0", "\"quoted value\"", "a;b", "# not a comment",
+			       // tuples and lists of every small arity, where strings, pairs or pairs of pairs are expected
+			       "{}", "{ }", "{a}", "{0}", "{,}", "{a,}", "{{}}", "{{}, {}}", "{{a}}", "{{0, end}}", "{{a, b, c}}",
+			       "{a, b, c}", "{0, 8, end}", ",", "a,", ",a", "{0, end}, {8, end}", "{offset_of(m0), end}"};
 static const char* PROPS[] = {"name", "name_regexp", "name_not_regexp", "symbol_name", "symbol_name_regexp", "symbol_name_not_regexp",
 			      "symbol_version", "symbol_version_regexp", "type_kind", "accessed_through", "source_location_not_in",
 			      "source_location_not_regexp", "has_data_member_inserted_at", "has_data_member_inserted_between",
@@ -144,7 +147,9 @@ LLVMFuzzerTestOneInput(const uint8_t* data, size_t size)
 	  if (s.empty())
 	    continue;
 	  // late: diff + report
-	  for (size_t k = 0; k < pairs_.size(); ++k)
+	  // one corpus pair per execution (they take turns): applying every specification to all three pairs cost two thirds
+	  // of the executions a campaign can afford
+	  for (size_t k = (c.execs / 2) % pairs_.size(), once = 0; once < 1; ++once)
 	    {
 	      comparison::diff_context_sptr ctxt(new comparison::diff_context);
 	      ctxt->add_suppressions(s);
@@ -159,7 +164,7 @@ LLVMFuzzerTestOneInput(const uint8_t* data, size_t size)
 		}
 	    }
 	  // early: read a binary with the suppressions in a fresh environment
-	  if (c.execs % 4 == 0)
+	  if (c.execs % 8 == 0)
 	    {
 	      ir::environment_sptr e2(new ir::environment);
 	      std::vector<char**> di;
